@@ -4,7 +4,7 @@
 SEED=$1; shift
 CHECKS=${@:-C01 C02 C03 C04 C05 C06 C07 C08 C09 C10 C11 C12 C13 C14 C15 C16 C17 C18}
 SNAP=/tmp/vsnap${SNAPID:-S}; RS=/tmp/rsnap${SNAPID:-S}
-mkdir -p $SNAP && rsync -a --delete --exclude work --exclude harness/target --exclude harness/target-nohooks --exclude .git --exclude replays /verif/ $SNAP/
+mkdir -p $SNAP && rsync -a --delete --exclude work --exclude 'harness/target*' --exclude .git --exclude replays /verif/ $SNAP/
 rm -rf $RS && git -C /repo worktree prune && git -C /repo worktree add -q --detach $RS HEAD && cp /repo/Cargo.lock $RS/
 sed -i "s#\"/repo\"#\"$RS\"#" $SNAP/lib/vlib.py $SNAP/harness/Cargo.toml $SNAP/harness/cfgprobe/Cargo.toml $SNAP/harness/nostdprobe/Cargo.toml
 sed -i "s#/repo/#$RS/#g" $SNAP/bin/setup
